@@ -143,6 +143,13 @@ def check_state(desc, sc, pats, flagsets, res):
                 wr = sorted(c for c in cands if refglob.norm(c) in must and c not in acc)
                 wa = sorted(c for c in cands if refglob.norm(c) not in allowed and c in acc)
                 res.n['globmatch_candidates_checked'] += len(cands)
+                if len(text) % 3 == 0:
+                    # an exclude= argument that matches nothing must not change which paths are accepted
+                    acc2 = set(G.globfilter(cands, text, flags=fscommon.gflags(fs) | G.REALPATH, root_dir=sc.root, exclude='zz*'))
+                    acc2 |= {c for c in acc if refglob.norm(c).rsplit('/', 1)[-1].startswith('zz')}
+                    if acc2 != acc:
+                        v = run.viol('exclude-changes-link-rule', inp, sorted(acc), sorted(acc2))
+                        res.add_violation(ID, v)
                 if wr or wa:
                     v = run.viol('globmatch-vs-reference', inp, {'must': must, 'may': sorted(allowed - set(must))},
                                  {'wrongly_rejected': wr, 'wrongly_accepted': wa})
@@ -261,6 +268,14 @@ def replay(v):
             return {'violates': got is None, 'observed': {'scandir_calls': len(mon.log)}}
         if got is None:
             return {'violates': True, 'observed': 'no termination'}
+        if k == 'exclude-changes-link-rule':
+            from . import c04
+            cands = [c for c in c04.candidates(model, got) if not c.endswith('/') or model.isdir(c.rstrip('/'))]
+            fl = fscommon.gflags(inp['flags']) | G.REALPATH
+            a = set(G.globfilter(cands, inp['pattern'], flags=fl, root_dir=sc.root))
+            b = set(G.globfilter(cands, inp['pattern'], flags=fl, root_dir=sc.root, exclude='zz*'))
+            b |= {c for c in a if refglob.norm(c).rsplit('/', 1)[-1].startswith('zz')}
+            return {'violates': a != b, 'observed': sorted(b)}
         if k == 'globmatch-vs-reference':
             from . import c04
             cands = [c for c in c04.candidates(model, got) if not c.endswith('/') or model.isdir(c.rstrip('/'))]
